@@ -239,6 +239,12 @@ func (e *Env) eval(x Expr) SVal {
 			return cv(app(SBV, "bvnot", v.T))
 		case "*":
 			v := e.eval(x.X)
+			if _, isName := x.X.(*EIdent); isName && v.Ty.K != KRef && (v.Ty.K == KInt || v.Ty.K == KBool || v.Ty.K == KCond) {
+				// *name for a source-level local: the contract was written when the local was address-taken (its SSA value
+				// is then a pointer to its cell); after a change that no longer takes its address the name is the value
+				// itself. Accept both, so that such a change still gets its obligations generated.
+				return v
+			}
 			if v.Ty.K != KRef {
 				e.fail("* needs a pointer")
 			}
